@@ -387,7 +387,30 @@ def run(ctx, config='rel-all'):
     if b:
         I, r = arena.run_fn(ctx, b['id'], config)
         check('into_bytes', 'returns the byte vector itself', r.ret == ('app', 'proj', SELF, 'collections::string::String.vec'), '', b.get('span'))
-    ctx.floor('O4', n4[0], 29, 'byte-shift formula clauses')
+    b = string_method(db, 'from_utf16_in')
+    if b:
+        I, r = arena.run_fn(ctx, b['id'], config)
+        dec = own_calls(r, 'char::decode_utf16')
+        pu = own_calls(r, "String::<'bump>::push")
+        okd = len(dec) == 1 and dec[0].args[0][0] == 'call' and dec[0].args[0][1].endswith('::cloned') and dec[0].args[0][2][0][0] == 'call' and dec[0].args[0][2][0][2] == (SELF,)
+        check('from_utf16_in', "std's decode_utf16 runs over the whole input", okd, '', b.get('span'))
+        okp = len(pu) == 1 and 'Ok' in show(pu[0].args[1]) and any(isinstance(t, tuple) and t and t[0] == 'call' and t[1].endswith('::next') for t in subterms(pu[0].args[1]))
+        check('from_utf16_in', 'every decoded char (the Ok payload of the decoder item) is pushed, in order', okp)
+        alts = [t for t, _ in arena.alternatives(I, r.ret, set())] if r.ret is not None else []
+        check('from_utf16_in', 'an unpaired surrogate ends in Err(FromUtf16Error), otherwise Ok(the string built)', len(alts) == 2 and any(t[0] == 'agg' and t[2] == 'Err' for t in alts) and any(t[0] == 'agg' and t[2] == 'Ok' for t in alts))
+    b = string_method(db, 'from_utf8')
+    if b:
+        I, r = arena.run_fn(ctx, b['id'], config)
+        fu = own_calls(r, 'str::converts::from_utf8')
+        vec = SELF
+        okv = len(fu) == 1 and fu[0].args[0][0] == 'agg' and fu[0].args[0][1] == 'slice' and field_of(fu[0].args[0], 'len') == ('app', 'proj', vec, 'collections::vec::Vec.len') \
+            and field_of(fu[0].args[0], 'ptr') == ('app', 'proj', ('app', 'proj', vec, 'collections::vec::Vec.buf'), 'collections::raw_vec::RawVec.ptr')
+        check('from_utf8', "std's from_utf8 validates the whole byte vector", okv, '', b.get('span'))
+        alts = [t for t, _ in arena.alternatives(I, r.ret, set())] if r.ret is not None else []
+        oka = any(t[0] == 'agg' and t[2] == 'Ok' and field_of(field_of(t, '0'), 'vec') == vec for t in alts if field_of(t, '0') is not None and field_of(t, '0')[0] == 'agg') \
+            and any(t[0] == 'agg' and t[2] == 'Err' and field_of(field_of(t, '0'), 'bytes') == vec for t in alts if field_of(t, '0') is not None and field_of(t, '0')[0] == 'agg')
+        check('from_utf8', 'Ok wraps the same vector; Err hands the same vector back together with the validation error', oka)
+    ctx.floor('O4', n4[0], 34, 'byte-shift formula clauses')
     # ---- R6 comparison / hashing / formatting / indexing / borrow impls hand the whole text to the str impl; R7 compositions
     from . import forwarding, glue
     forwarding.check(ctx, config, 'R6', 'string::String', 29)
